@@ -272,6 +272,37 @@ def case_from_json(c):
     return c.get("family", "replay"), dims, (None if sh is None else tuple(sh))
 
 
+def do_huge(st):
+    """Indexes of 2**24 .. 2**32 rows of which only a handful is uncommon (cheap: only uncommon row ids are stored): counts,
+    margins and the reconstructed common cell are integers far above 2**24 - whatever holds them has to be exact there.
+    Oracle: the table computed from the handful of uncommon rows, the common cell by subtraction (no dense view)."""
+    from catii import ccube, iindex
+
+    u32 = lambda xs: np.array(xs, dtype=np.uint32)  # noqa
+    for N in (2 ** 24 + 1, 2 ** 24 + 4, 2 ** 31 + 5, 2 ** 32 - 1):
+        one = [iindex({(1,): u32([0, N - 1])}, 0, (N,))]
+        two = [iindex({(1,): u32([0, 5])}, 0, (N,)), iindex({(2,): u32([5, N - 1])}, 0, (N,))]
+        want1 = np.array([N - 2, 2], dtype=np.int64)
+        want2 = np.zeros((2, 3), dtype=np.int64)
+        want2[1, 0], want2[1, 2], want2[0, 2], want2[0, 0] = 1, 1, 1, N - 3
+        for dims, want, shape in ((one, want1, (2,)), (two, want2, (2, 3))):
+            for name, fmt in FORMATS:
+                ex = {"family": "hugeN", "N": N, "dims": [{"entries": {str(k): v.tolist() for k, v in d.items()}, "common": d.common, "shape": list(d.shape)} for d in dims],
+                      "interacting_shape": list(shape), "return_missing_as": name}
+                try:
+                    res = ccube(dims, interacting_shape=shape).count(return_missing_as=fmt) if name != "plain" else ccube(dims, interacting_shape=shape).count(N=N, return_missing_as=fmt)
+                    vals, valid = res if isinstance(res, tuple) else (res, None)
+                    miss = (~np.asarray(valid)) if valid is not None else (np.isnan(np.asarray(vals, dtype=float)) if name == "nan" else np.asarray(vals) == 0)
+                    got = np.where(miss, 0, np.nan_to_num(np.asarray(vals, dtype=float))).astype(np.float64)
+                    ok = got.shape == want.shape and bool((got == want.astype(np.float64)).all()) and bool((miss == (want == 0)).all())
+                    MON.check("ccubes.ccube.count/ensures-cells-equal-the-count-table-of-a-sparse-index-of-millions-of-rows", ok,
+                              lambda: "count %r (missing %r), required %r" % (np.asarray(vals).tolist(), miss.astype(int).tolist(), want.tolist()), ex, {"family": "hugeN", "N": N})
+                except Exception as e:  # noqa
+                    MON.check("ccubes.ccube.count/ensures-cells-equal-the-count-table-of-a-sparse-index-of-millions-of-rows",
+                              "raised %s: %s" % (type(e).__name__, e), None, ex, {"family": "hugeN", "N": N})
+                st.call(True, ex)
+
+
 class _SerialPool:
     """ThreadPool stand-in: the tasks handed to map run in order on the calling thread."""
 
@@ -353,6 +384,21 @@ def do_case(fam, dims, shape, st, parts=("walk", "count")):
         if len(dims) <= 2:
             _try(lambda: ccube(idx, **kw).walk(lambda c, r: None))
             st.call(nrows > 0)
+    if one_axis and "walk" in parts and shape is None and "count" not in parts and nrows <= 3 and fam in ("1d", "2d", "3d"):
+        # the same dimensions with an explicit entry that holds no row (under an unused category), in every position:
+        # such a combination is matched by no row and must not be presented
+        for pos in range(len(dims)):
+            idx_e = [mk(np.array(cells, dtype=np.int64).reshape(sh), k) for sh, cells, k in dims]
+            u = max(list(dims[pos][1]) + [dims[pos][2]]) + 1
+            dict.__setitem__(idx_e[pos], (u,), np.array([], dtype=np.uint32))
+            shape_e = tuple(max(list(c) + [k]) + 2 for _, c, k in dims)
+            CC.new_case(dict(cj, empty_entry={"dimension": pos, "category": u}, interacting_shape=list(shape_e)),
+                        {"family": fam, "ndims": len(dims), "scaffold": False, "shape": "explicit", "nrows": nrows, "empty_entry": True})
+            _try(lambda: ccube(idx_e, interacting_shape=shape_e).interactions())
+            st.call(nrows > 0)
+            _try(lambda: ccube(idx_e, interacting_shape=shape_e).walk((lambda c, r: None,)))
+            st.call(nrows > 0)
+        CC.new_case(cj, {"family": fam, "ndims": len(dims), "scaffold": not one_axis, "shape": "inferred" if shape is None else "explicit", "nrows": nrows})
     if "count1" in parts and (fam != "3d" or nrows <= 2):
         # the walks made by calculate on the 1-D sub-cubes (funcs = the _fill closures, dims = the
         # slices cut by slices1d); for three plain dimensions of 3+ rows these repeat the walk above
@@ -418,6 +464,8 @@ def work(args):
             do_case(fam, dims, shape, st, parts)
         fams[fam] = fams.get(fam, 0) + 1
         j += 1
+    if "count" in parts and shard == 2 % nshards:
+        do_huge(st)
     out = MON.dump()
     out.update(driver_calls=st.calls, nontrivial=st.nontrivial, samples=st.samples, jobs=j, families=fams)
     return out
